@@ -179,6 +179,38 @@ def selftest_seq(ctx, behs, flags):
     raise Infra('binding self-test: no suitable behaviour')
 
 
+def check_C12(ctx):
+    ctx.assumptions += ['bounded model (constants in the cfg files named under mc_runs)',
+                        'recency of table files is what KevoStore!Older defines: deeper level = older, inside a level higher file number = newer',
+                        'a background flush that lands between the two directory snapshots of one compaction step voids that comparison (counted, not judged)',
+                        'tombstone retention by age (24 h) cannot be exercised in a check']
+    if not ctx.quick():
+        tlc_mc(ctx, 'MC_Store', 'MC_Store_thorough.cfg', timeout=3000)
+    tlc_mc(ctx, 'MC_Store', 'MC_Store_compact.cfg', timeout=280 if ctx.quick() else 900)
+    n = 250 if ctx.quick() else 2000
+    behs = gen(ctx, 'GEN_Store_compact.cfg', n, seed_off=3)
+    behs = corpus('store.ndjson') + corpus('compact.ndjson') + behs
+    nontrivial_c12(ctx, behs)
+    ctx.samples = [[{'a': s['a'], 'op': s['op']} for s in behs[len(behs) // 2][:12]]]
+    flags = ['-dirview', '-ballast', '12']
+    selftest_binding(ctx, behs[-20:], flags)
+    ctx.traces += run_replays(ctx, 'C12', behs, flags, CLASSES[:3], 'c12')
+    ctx.evaluations = ctx.traces
+    write_evidence(ctx, 'model_checking',
+                   'behaviours drawn by TLC simulation of GEN_Store biased towards flush/compaction (cycle, full-range, sub-range)/retire/reopen, '
+                   'replayed under 3 configuration classes: every key (and filler keys) is read back after every call incl. after reopen with the '
+                   'old log files retired (reads then come from table files only), and around every compaction call the merged newest-wins view of '
+                   'the table directory, computed with the real readers and the recency order the specification defines, must be unchanged and '
+                   'every file strictly ascending. distinct_nontrivial = distinct behaviours with at least one compaction after a flush')
+
+
+def nontrivial_c12(ctx, behs):
+    for b in behs:
+        acts = [s['a'] for s in b]
+        if 'flush' in acts and any(a.startswith('compact') for a in acts[acts.index('flush'):]):
+            ctx.nontrivial.add(action_sig(b) + '|' + json.dumps([s['op'] for s in b], sort_keys=True))
+
+
 def replay_saved(ctx, payload):
     cls = tuple(payload['class'])
     mm, _ = replay_class(ctx, [payload['behaviour']], (cls[0], cls[1], cls[2], 1.0), payload['flags'], 'replay')
